@@ -59,7 +59,7 @@ def model_check(structs, form, xdesc, leaf="any"):
     """-> (allowed, structs after)"""
     if xdesc[0] == "none":
         return {dl.TRUE}, structs
-    if leaf == "int" and has_bad_leaf(xdesc):
+    if leaf in ("int", "pair") and has_bad_leaf(xdesc):
         # a leaf that is not an int: rejected (or AnnotationError if the structure part cannot be evaluated), nothing bound
         al, _ = model_check(structs, form, xdesc, "any")
         return ({dl.ANNERR} if al == {dl.ANNERR} else {dl.FALSE}), structs
@@ -200,8 +200,11 @@ def check_case(ctx, case):
     obs.reset_state()
     t, s, x = (gt.from_json(case[k]) for k in ("t", "s", "x"))
     form = case["form"]
-    L = int if case["leaf"] == "int" else Any
+    L = {"int": int, "any": Any, "pair": tuple[int, int]}[case["leaf"]]
     rt, rs, rx = selfcheck(t), selfcheck(s), selfcheck(x)
+    if case["leaf"] == "pair":
+        # every leaf is itself a container, (7, 8), that only the leaf type makes a leaf
+        rt, rs, rx = (pt.build(d, lambda p: "bad-leaf" if p == "bad" else (7, 8)) for d in (t, s, x))
     selfcheck_pair(t, x)
     selfcheck_pair(s, x)
     names, prefix, suffix = form_pieces(form)
@@ -266,6 +269,23 @@ def c09_case(draw):
     nmut = draw(st.sampled_from([0, 1, 0, 0, 1, 2]))
     for _ in range(nmut):
         x = mutate(draw, x)
+    leaf_kind = draw(st.sampled_from(["int", "pair", "any", "int"]))
+    if leaf_kind == "pair" and draw(st.integers(0, 1)) == 0:
+        # collapse one tuple-of-two-leaves of x into a single leaf: with L = tuple[int,int] that leaf is the object
+        # (7, 8), which only the leaf type keeps from being traversed
+        def collapse(d, done):
+            if not done[0] and d[0] == "tuple" and len(d[1]) == 2 and all(c[0] == "leaf" for c in d[1]):
+                done[0] = True
+                return ("leaf", 0)
+            if d[0] in ("tuple", "list", "nt"):
+                return (d[0], [collapse(c, done) for c in d[1]])
+            if d[0] == "dict":
+                return ("dict", [(k, collapse(c, done)) for k, c in d[1]])
+            if d[0] == "custom":
+                return ("custom", d[1], [collapse(c, done) for c in d[2]])
+            return d
+
+        x = collapse(x, [False])
     # occasionally one leaf of t or x is not an int: with L=int that check must fail and bind nothing
     if draw(st.integers(0, 7)) == 0:
         which = draw(st.sampled_from(["t", "x"]))
@@ -280,7 +300,7 @@ def c09_case(draw):
                 x = tree
     return {
         "t": gt.to_json(t), "s": gt.to_json(s), "x": gt.to_json(x), "form": form, "how": how, "nmut": nmut,
-        "leaf": draw(st.sampled_from(["int", "any"])),
+        "leaf": leaf_kind,
         "bind_t": draw(st.sampled_from([True, True, True, True, False])),
         "bind_s": draw(st.sampled_from([True, True, True, False])),
     }
